@@ -6,7 +6,7 @@ import ast
 
 from sa.cfg import expr_guards, facts
 from sa.consteval import NT, UNKNOWN, Folder
-from sa.model import AnalysisError, Finding, FunctionInfo, enclosing_fn, loc, names_in, src
+from sa.model import AnalysisError, Finding, FunctionInfo, dump, enclosing_fn, loc, names_in, src
 from sa.strshape import literal_fragments, literal_prefixes
 
 
@@ -609,19 +609,46 @@ def rule_table_announce(prog, rep, tier):
             gnames |= names_in(t)
         decided_by_reader = False
         Q = []
+        def searched(c):
+            """the texts a substring test `X in prose` looks for: the constant, or - `a.rstrip() in prose for a in TABLE` - what the
+            expression makes of every entry of the table it runs over"""
+            if not (isinstance(c, ast.Compare) and len(c.ops) == 1 and isinstance(c.ops[0], (ast.In, ast.NotIn))):
+                return []
+            if isinstance(c.left, ast.Constant):
+                return [c.left] if isinstance(c.left.value, str) else []
+            par = getattr(c, "_parent", None)
+            while par is not None and not isinstance(par, (ast.GeneratorExp, ast.ListComp, ast.SetComp, ast.FunctionDef, ast.Lambda)):
+                par = getattr(par, "_parent", None)
+            out = []
+            if isinstance(par, (ast.GeneratorExp, ast.ListComp, ast.SetComp)) and len(par.generators) == 1 and isinstance(par.generators[0].target, ast.Name):
+                var = par.generators[0].target.id
+                tab = folder.fold(par.generators[0].iter, {}, par.generators[0].iter)
+                if isinstance(tab, (tuple, list, frozenset, set)) and tab and all(isinstance(x, str) for x in tab) and var in names_in(c.left):
+                    for x in sorted(tab):
+                        v = folder.fold(c.left, {var: x}, c.left)
+                        if isinstance(v, str):
+                            k = ast.copy_location(ast.Constant(value=v), c.left)
+                            k._module, k._parent = getattr(c.left, "_module", None) or prog.module_of(c), c
+                            # is the prose searched in folded form?  (`x.casefold() in doc.casefold()`)
+                            hay = c.comparators[0]
+                            if isinstance(hay, ast.Name):
+                                ds = [st_.value for st_ in ast.walk(fi.node) if isinstance(st_, ast.Assign) and any(isinstance(t_, ast.Name) and t_.id == hay.id for t_ in st_.targets)]
+                                hay = ds[0] if len(ds) == 1 else hay
+                            k._ci = isinstance(hay, ast.Call) and isinstance(hay.func, ast.Attribute) and hay.func.attr in ("casefold", "lower")
+                            out.append(k)
+            return out
         for t in guards:
             for c in ast.walk(t):
-                if isinstance(c, ast.Compare) and len(c.ops) == 1 and isinstance(c.ops[0], (ast.In, ast.NotIn)) and isinstance(c.left, ast.Constant) and isinstance(c.left.value, str):
-                    Q.append(c.left)
+                Q.extend(searched(c))
         for nm in gnames:
             for st in ast.walk(fi.node):
                 if isinstance(st, ast.Assign) and any(isinstance(x, ast.Name) and x.id == nm for x in st.targets):
                     if any(isinstance(c, ast.Call) and prog.is_fn(c.func, "defaults_utils.extract_default", c) for c in ast.walk(st.value)):
                         decided_by_reader = True
                     for c in ast.walk(st.value):
-                        if isinstance(c, ast.Compare) and len(c.ops) == 1 and isinstance(c.ops[0], (ast.In, ast.NotIn)) and isinstance(c.left, ast.Constant) and isinstance(c.left.value, str):
-                            Q.append(c.left)
+                        Q.extend(searched(c))
         Q = [c for c in Q if c.value not in ("default", "doc", "typ", "name")]  # key-presence tests of the parameter dict, not prose tests
+        Q = list({c.value: c for c in Q}.values())
         if decided_by_reader:
             rep.holds("TABLE-announce", "(b)(c) %s decides 'already announced' by calling the reader (extract_default)" % q, loc(prog, p), "agreement by construction")
             continue
@@ -630,7 +657,7 @@ def rule_table_announce(prog, rep, tier):
             continue
         qs = [c.value for c in Q]
         # (b) the writer recognises its own sentence
-        if any(x in lit for x in qs):
+        if any((c.value in lit.casefold()) if getattr(c, "_ci", False) else (c.value in lit) for c in Q):
             rep.holds("TABLE-announce", "(b) %s recognises its own sentence (%r in %r)" % (q, qs, lit), loc(prog, p), "")
         else:
             rep.violation(Finding("TABLE-announce", q, "b:own-sentence",
@@ -643,3 +670,108 @@ def rule_table_announce(prog, rep, tier):
                 rep.violation(Finding("TABLE-announce", q, "c:skip-word:%r" % c.value,
                                       "%s skips writing the default when the prose contains %r, which contains none of the reader's announcements %r: "
                                       "such prose loses its default on the way through text" % (q, c.value, R), loc(prog, c)))
+
+
+# ---------------------------------------------------------------------------- ARGPARSE-VERBATIM (C06)
+def rule_argparse_verbatim(prog, rep, tier, writer="emit.argparse_function"):
+    """ARGPARSE-VERBATIM (C06): which of the texts handed to a generated parser argparse %-formats is a fact about argparse:
+    every `help=` string is (`help % params`), the parser's `description` is printed as it is (only a text containing
+    `%(prog)` is formatted).  The text assigned to `argument_parser.description` therefore carries the summary unchanged: a
+    percent sign doubled there - the right thing for help - is printed doubled by the generated parser."""
+    w = prog.fn(writer)
+    n = 0
+    for f in prog.reachable([w]):
+        if f.module is not w.module:
+            continue
+        for c in ast.walk(f.node):
+            if not (isinstance(c, ast.Call) and getattr(c.func, "id", getattr(c.func, "attr", None)) == "Assign"):
+                continue
+            tg = next((k.value for k in c.keywords if k.arg == "targets"), None)
+            val = next((k.value for k in c.keywords if k.arg == "value"), None)
+            if tg is None or val is None:
+                continue
+            if not any(isinstance(x, ast.Constant) and x.value == "description" for x in ast.walk(tg)):
+                continue
+            n += 1
+            # the value expression and the locals it is built from
+            closure, todo, seen = [], [val], set()
+            while todo:
+                e_ = todo.pop()
+                closure.append(e_)
+                for x in ast.walk(e_):
+                    if isinstance(x, ast.Name) and x.id not in seen:
+                        seen.add(x.id)
+                        todo += [st.value for st in ast.walk(f.node) if isinstance(st, ast.Assign) and any(isinstance(t, ast.Name) and t.id == x.id for t in st.targets)]
+            esc = [x for e_ in closure for x in ast.walk(e_) if isinstance(x, ast.Call) and isinstance(x.func, ast.Attribute) and x.func.attr == "replace" and len(x.args) >= 2
+                   and all(isinstance(a_, ast.Constant) for a_ in x.args[:2]) and x.args[0].value == "%"]
+            if esc:
+                rep.violation(Finding(
+                    "ARGPARSE-VERBATIM", prog.owner_name(f), "description-percent-rewritten",
+                    "the text assigned to argument_parser.description passes through %s: argparse prints a description as it is (unlike help strings it is not %%-formatted), "
+                    "so the generated parser shows the summary with the percent sign rewritten - it no longer says what the IR says" % src(esc[0], 40), loc(prog, esc[0])))
+            else:
+                rep.holds("ARGPARSE-VERBATIM", "%s: description = %s" % (prog.owner_name(f), src(val, 50)), loc(prog, c), "no percent rewriting on the text argparse prints as it is")
+    if n == 0:
+        raise AnalysisError("ARGPARSE-VERBATIM: the assignment to argument_parser.description was not found in %s" % writer)
+
+
+# ---------------------------------------------------------------------------- RECEIVER-SITES (C15, C14, C11)
+def rule_receiver_sites(prog, rep, tier, anchors=("ast_utils.annotate_ancestry", "ast_utils.RewriteAtQuery.visit_FunctionDef", "ast_utils.find_in_ast")):
+    """RECEIVER-SITES: the location machinery numbers the arguments of a function and leaves the receiver out; which first
+    arguments are receivers is what get_function_type recognises ('self' and 'cls').  Every test in that machinery that names a
+    receiver - `args[0].arg in (...)`, `get_function_type(f) == ...` - names all of them: a test for 'self' alone numbers the
+    arguments of a class method one too high, and the default of the neighbouring argument is the one that gets replaced."""
+    gft = prog.fn("ast_utils.get_function_type")
+    folder = Folder(prog)
+    recog = set()
+    for c in ast.walk(gft.node):
+        if isinstance(c, ast.Compare) and len(c.ops) == 1 and isinstance(c.ops[0], ast.In):
+            v = folder.fold(c.comparators[0], {}, c)
+            if v is not UNKNOWN:
+                recog |= {x for x in v if isinstance(x, str)}
+        if isinstance(c, ast.Compare) and len(c.ops) == 1 and isinstance(c.ops[0], ast.Eq) and isinstance(c.comparators[0], ast.Constant) and isinstance(c.comparators[0].value, str):
+            recog.add(c.comparators[0].value)
+    receivers = {x for x in recog if x not in ("static", None)}
+    if len(receivers) < 2:
+        raise AnalysisError("RECEIVER-SITES: get_function_type recognises only %r as receivers" % sorted(receivers))
+    n = 0
+    seen = set()
+    roots = [prog.fn(a) for a in anchors if prog.has_fn(a)]
+    if not roots:
+        raise AnalysisError("RECEIVER-SITES: none of the anchors %r exists" % (anchors,))
+    for f in prog.reachable(roots):
+        if f is gft or f.module is not roots[0].module:
+            continue
+        for c in ast.walk(f.node):
+            if not (isinstance(c, ast.Compare) and len(c.ops) == 1 and isinstance(c.ops[0], (ast.In, ast.NotIn, ast.Eq, ast.NotEq))) or id(c) in seen:
+                continue
+            seen.add(id(c))
+            v = folder.fold(c.comparators[0], {}, c)
+            named = set()
+            if isinstance(c.ops[0], (ast.In, ast.NotIn)) and v is not UNKNOWN and isinstance(v, (tuple, list, set, frozenset)):
+                named = {x for x in v if isinstance(x, str)}
+            elif isinstance(c.ops[0], (ast.Eq, ast.NotEq)) and isinstance(v, str):
+                named = {v}
+                # `t == "self" or t == "cls"`: the siblings of a disjunction count together
+                par = getattr(c, "_parent", None)
+                if isinstance(par, ast.BoolOp):
+                    for sib in par.values:
+                        if isinstance(sib, ast.Compare) and len(sib.ops) == 1 and isinstance(sib.ops[0], (ast.Eq, ast.NotEq)) and dump(sib.left) == dump(c.left):
+                            sv = folder.fold(sib.comparators[0], {}, sib)
+                            if isinstance(sv, str):
+                                named.add(sv)
+                                seen.add(id(sib))
+            if not (named & receivers):
+                continue
+            n += 1
+            inst = "%s: %s" % (prog.owner_name(f), src(c, 50))
+            missing = receivers - named
+            if missing:
+                rep.violation(Finding(
+                    "RECEIVER-SITES", prog.owner_name(f), "receiver-test-incomplete:%s" % ",".join(sorted(missing)),
+                    "`%s` names %r but not %r, which get_function_type also recognises as a receiver: for such a method the arguments are numbered with the receiver "
+                    "counted in, one too high, and a replacement addressed to one argument lands on its neighbour's default" % (src(c, 50), sorted(named & receivers), sorted(missing)), loc(prog, c)))
+            else:
+                rep.holds("RECEIVER-SITES", inst, loc(prog, c), "names every receiver get_function_type recognises")
+    if n == 0:
+        raise AnalysisError("RECEIVER-SITES: no test naming a receiver found in the location machinery")
